@@ -452,3 +452,19 @@ package internal
 //@   allocates
 //@   assigns H_internal_rawXMLValueReader_start, H_internal_rawXMLValueReader_end, H_internal_rawXMLValueReader_child, H_internal_rawXMLValueReader_childReader
 //@   loop 1 invariant I1: tr.val == old(tr.val) && 0 <= tr.child && (forall i int :: 0 <= i && i < len(tr.val.children) ==> tr.val.children[i].out == nil)
+
+//@ -- resource types (MKCOL bodies, client-side kind detection): Is(name) iff some listed element carries that name
+//@ spec opaque rtHas(t *ResourceType, name xml.Name) bool = exists i int :: 0 <= i && i < len(t.Raw) && namedRaw(t.Raw[i]) && rawName(t.Raw[i]) == name
+//@ func internal.(*ResourceType).Is(t, name) (r)
+//@   reveal rtHas
+//@   requires R1: t != nil
+//@   ensures I1a: r ==> (exists i int :: 0 <= i && i < len(t.Raw) && namedRaw(t.Raw[i]) && rawName(t.Raw[i]) == name)
+//@   witness I1a: i : #i1 - 1
+//@   ensures I1b: !r ==> !rtHas(t, name)
+//@   ensures I1c: r ==> rtHas(t, name)
+//@   loop 1 invariant J1: forall j int :: 0 <= j && j < #i ==> !(namedRaw(t.Raw[j]) && rawName(t.Raw[j]) == name)
+//@ spec rtHasV(t ResourceType, name xml.Name) bool = exists i int :: 0 <= i && i < len(t.Raw) && namedRaw(t.Raw[i]) && rawName(t.Raw[i]) == name
+//@ -- IsRequestBodyEmpty probes the body with a zero-length read (T-http): a function of the request
+//@ func internal.IsRequestBodyEmpty(r) (e) as bodyEmpty
+//@   trusted T-http
+//@   pure
